@@ -1,7 +1,7 @@
 (* C01: concrete instances (non-vacuity of the hypotheses, and what is wrong without the repair). *)
 From Coq Require Import ZArith List Bool Lia Arith.
 Import ListNotations.
-From SCMO Require Import Lib.Val Model.C01 Proofs.C01 Proofs.C01_b Proofs.C01_c.
+From SCMO Require Import Lib.Val Lib.C01Shape Model.C01 Proofs.C01 Proofs.C01_b Proofs.C01_c.
 Open Scope Z_scope.
 
 (* "@a" / "@b" / "@c" headers; R1 bases starting with A are accepted, with C rejected ("bc"), else the
@@ -22,8 +22,14 @@ Definition ex_strat : strategy := fun p =>
       end
   | _ => Raise [73; 69]
   end.
+(* accepted, but serialising the second mate raises "VE" *)
+Definition ex_partial : strategy := fun p =>
+  match p with
+  | r1 :: _ => Accept [mkArec true [49] (fastq_text (r_header r1) (r_seq r1) [43] (r_qual r1)); mkArec false [] [86; 69]]
+  | _ => Raise [73; 69]
+  end.
 Definition ex_rejhdr : read -> str -> hout := fun r reason => HOk (tl (r_header r) ++ tagRR ++ reason).
-Definition ex_cfg (legacy : bool) : config := mkConfig None true false 2 legacy false.
+Definition ex_cfg : config := mkConfig None true false 2 false.
 Definition ex_pairs := [exA; exB; exC].
 
 Lemma ex_rejhdr_contract : forall r reason h, ex_rejhdr r reason = HOk h -> contains (tagRR ++ reason) h.
@@ -31,7 +37,8 @@ Proof. intros r reason h H. inversion H. exists (tl (r_header r)), []. now rewri
 
 (* the repaired loader on accept / reject / raise: every pair exactly once, R1/R2 in step, yield counter 1 *)
 Lemma ex_run :
-  let res := loader [ex_strat] ex_rejhdr (ex_cfg false) ex_pairs in
+  let res := loader repaired_shape [ex_strat] ex_rejhdr ex_cfg ex_pairs in
+  wf_shape repaired_shape = true /\
   res_crashed res = false /\ res_processed res = 3 /\ res_yields res = [1]
   /\ map lab (file_events (res_trace res) true [] 0) = [(0, 0)]%nat
   /\ map lab (file_events (res_trace res) true [] 1) = [(0, 0)]%nat
@@ -39,7 +46,7 @@ Lemma ex_run :
   /\ map lab (file_events (res_trace res) false [] 1) = [(1, 0); (2, 0)]%nat
   /\ file_bytes (res_trace res) false [] 0 =
        [64;98;59;82;82;58;98;99;10; 67;67;10; 43;10; 73;73;10;   64;99;59;82;82;58;73;69;10; 71;10; 43;10; 73;10]
-  /\ (forall r f, In r (consumed (ex_cfg false) ex_pairs) -> In f [ex_strat] -> step_ok2 (ex_cfg false) r f).
+  /\ (forall r f, In r (consumed repaired_shape ex_cfg ex_pairs) -> In f [ex_strat] -> step_ok2 ex_cfg r f).
 Proof.
   cbv zeta. repeat split; try (vm_compute; reflexivity).
   - destruct H0 as [<-|[]]. cbn in H. destruct H as [<-|[<-|[<-|[]]]]; vm_compute; lia.
@@ -47,56 +54,97 @@ Proof.
     intros _ x y [<-|[<-|[]]] [<-|[<-|[]]]; reflexivity.
 Qed.
 
+(* the other well-formed loop order (maxReadPairs test first): with maxReadPairs = 2 two pairs are consumed, with 0 none *)
+Lemma ex_run_test_first :
+  wf_shape (good_shape false false) = true /\
+  let res := loader (good_shape false false) [ex_strat] ex_rejhdr (mkConfig (Some 2) true false 2 false) ex_pairs in
+  res_crashed res = false /\ res_processed res = 2 /\ res_yields res = [1]
+  /\ map lab (file_events (res_trace res) false [] 0) = [(1, 0)]%nat
+  /\ res_processed (loader (good_shape false false) [ex_strat] ex_rejhdr (mkConfig (Some 0) true false 2 false) ex_pairs) = 0
+  /\ res_processed (loader repaired_shape [ex_strat] ex_rejhdr (mkConfig (Some 0) true false 2 false) ex_pairs) = 1.
+Proof. vm_compute. repeat split; reflexivity. Qed.
+
 (* the generic-exception arm of the unrepaired loader: pair 2 (the strategy raised) is written nowhere although a
    rejects handle exists, and the yield counter (2) exceeds the records written (1) *)
 Lemma legacy_generic_arm_refuted :
-  exists strats rejhdr cfg pairs,
-    c_legacy cfg = true /\ c_rejects cfg = true /\
-    let res := loader strats rejhdr cfg pairs in
+  exists sh strats rejhdr cfg pairs,
+    wf_shape sh = false /\ c_rejects cfg = true /\
+    let res := loader sh strats rejhdr cfg pairs in
     res_crashed res = false /\ res_processed res = 3 /\
     filter (lab_eqb 2 0) (res_trace res) = [] /\
     nth 0 (res_yields res) 0 = 2 /\
     length (filter (written_by 0) (res_trace res)) = 1%nat.
 Proof.
-  exists [ex_strat], ex_rejhdr, (ex_cfg true), ex_pairs. vm_compute. repeat split; reflexivity.
+  exists legacy_shape, [ex_strat], ex_rejhdr, ex_cfg, ex_pairs. vm_compute. repeat split; reflexivity.
 Qed.
+
+(* every conjunct of wf_shape is needed: one field of the repaired shape changed, and a run that breaks the property.
+   (1) reject arm without the handle guard: without a rejects handle the loader dies on the first rejected pair;
+   (2) reject arm falling through to the increment: a rejected pair is counted as a yield;
+   (3) reject arm writing to the demultiplexed output: the pair is in the wrong sink;
+   (4) increment before the write: a pair whose write raises is counted although it went to the rejects;
+   (5) maxReadPairs test between the increment and the strategy loop: the last counted pair is written nowhere;
+   (6) accepted records not written: the pair is in neither sink although counted. *)
+Definition set_reject (a : arm) (s : shape) : shape :=
+  mkShape (sh_accept s) a (sh_generic s) (sh_count_early s) (sh_incr_before_test s) (sh_strat_before_test s).
+
+Lemma shape_fields_needed :
+  (* 1 *) (let sh := set_reject (mkArm SReject false false) repaired_shape in
+           wf_shape sh = false /\
+           res_crashed (loader sh [ex_strat] ex_rejhdr (mkConfig None false false 2 false) ex_pairs) = true) /\
+  (* 2 *) (let sh := set_reject (mkArm SReject true true) repaired_shape in
+           wf_shape sh = false /\
+           let res := loader sh [ex_strat] ex_rejhdr ex_cfg ex_pairs in
+           res_crashed res = false /\ res_yields res = [2] /\ length (filter (written_by 0) (res_trace res)) = 1%nat) /\
+  (* 3 *) (let sh := set_reject (mkArm STarget true false) repaired_shape in
+           wf_shape sh = false /\
+           let res := loader sh [ex_strat] ex_rejhdr ex_cfg ex_pairs in
+           res_crashed res = false /\ count_at (res_trace res) true 1 0 0 = 1%nat /\ count_at (res_trace res) false 1 0 0 = 0%nat) /\
+  (* 4 *) (let sh := mkShape (mkArm STarget true true) (mkArm SReject true false) (mkArm SReject true false) true true true in
+           wf_shape sh = false /\
+           let res := loader sh [ex_partial] ex_rejhdr ex_cfg [exA] in
+           res_crashed res = false /\ res_yields res = [1] /\ count_at (res_trace res) false 0 0 0 = 1%nat) /\
+  (* 5 *) (let sh := mkShape (mkArm STarget true true) (mkArm SReject true false) (mkArm SReject true false) false true false in
+           wf_shape sh = false /\
+           let res := loader sh [ex_strat] ex_rejhdr (mkConfig (Some 2) true false 2 false) ex_pairs in
+           res_crashed res = false /\ res_processed res = 2 /\ filter (lab_eqb 1 0) (res_trace res) = []) /\
+  (* 6 *) (let sh := mkShape (mkArm SNone true true) (mkArm SReject true false) (mkArm SReject true false) false true true in
+           wf_shape sh = false /\
+           let res := loader sh [ex_strat] ex_rejhdr ex_cfg ex_pairs in
+           res_crashed res = false /\ res_yields res = [1] /\ filter (lab_eqb 0 0) (res_trace res) = []).
+Proof. vm_compute. repeat split; reflexivity. Qed.
 
 (* a reject record that cannot be formatted (other exception than NonMultiplexable, e.g. the header limit with a
    very long library name) leaves the loop: the loader raises, the pair and everything after it is written nowhere *)
 Lemma reject_crash_example :
-  exists strats rejhdr cfg pairs,
-    c_legacy cfg = false /\
-    let res := loader strats rejhdr cfg pairs in
+  exists sh strats rejhdr cfg pairs,
+    wf_shape sh = true /\
+    let res := loader sh strats rejhdr cfg pairs in
     res_crashed res = true /\ filter (lab_eqb 1 0) (res_trace res) = [] /\ filter (lab_eqb 2 0) (res_trace res) = [].
 Proof.
-  exists [ex_strat], (fun _ _ => HRaise), (ex_cfg false), ex_pairs. vm_compute. repeat split; reflexivity.
+  exists repaired_shape, [ex_strat], (fun _ _ => HRaise), ex_cfg, ex_pairs. vm_compute. repeat split; reflexivity.
 Qed.
 
 (* the hypothesis step_ok excludes a PARTIAL write: if the first mate of an accepted pair is written and serialising the
    second raises (ValueError), FastqHandle.write has already put R1 into the demultiplexed output; the generic arm then
    puts both mates into the rejects: the pair is in both outputs and R1/R2 of the target fall out of step.  The
    correspondence check therefore treats a partial write of the real code as a violation. *)
-Definition ex_partial : strategy := fun p =>
-  match p with
-  | r1 :: _ => Accept [mkArec true [49] (fastq_text (r_header r1) (r_seq r1) [43] (r_qual r1)); mkArec false [] [86; 69]]
-  | _ => Raise [73; 69]
-  end.
 
 Lemma partial_write_refuted :
-  exists strats rejhdr cfg pairs,
-    c_legacy cfg = false /\ c_rejects cfg = true /\
-    let res := loader strats rejhdr cfg pairs in
+  exists sh strats rejhdr cfg pairs,
+    wf_shape sh = true /\ c_rejects cfg = true /\
+    let res := loader sh strats rejhdr cfg pairs in
     res_crashed res = false /\
     count_at (res_trace res) true 0 0 0 = 1%nat /\ count_at (res_trace res) false 0 0 0 = 1%nat /\
     length (file_events (res_trace res) true [] 0) = 1%nat /\ length (file_events (res_trace res) true [] 1) = 0%nat /\
     res_yields res = [0].
 Proof.
-  exists [ex_partial], ex_rejhdr, (ex_cfg false), [exA]. vm_compute. repeat split; reflexivity.
+  exists repaired_shape, [ex_partial], ex_rejhdr, ex_cfg, [exA]. vm_compute. repeat split; reflexivity.
 Qed.
 
 (* the loader does not look at the log handle: with and without one the same writes, counters and outcome *)
-Lemma log_independent : forall strats rejhdr cfg b pairs,
-  loader strats rejhdr (set_log b cfg) pairs = loader strats rejhdr cfg pairs.
+Lemma log_independent : forall sh strats rejhdr cfg b pairs,
+  loader sh strats rejhdr (set_log b cfg) pairs = loader sh strats rejhdr cfg pairs.
 Proof. intros. reflexivity. Qed.
 
 (* the reader: R2 is one record short and R1 has a whitespace-only line where the third header should be *)
